@@ -1,7 +1,7 @@
 (* Correspondence for C04: run Model/Transforms.v on the inputs given to the implementation (plus the recorded
    oracle answers) and compare with the implementation's outputs: bit-exact on Z, toleranced on Q. *)
 From Coq Require Import List Arith ZArith QArith Qabs Qround Bool.
-From TLV Require Import Base.Shape Base.PyList Base.Tensor Base.Ops Model.Transforms Corr.Common.
+From TLV Require Import Base.Shape Base.PyList Base.Tensor Base.Ops Model.Transforms Model.TransformsApi Model.TransformsHeap Corr.Common.
 Import ListNotations.
 
 Fixpoint list_eqb {A} (eqb : A -> A -> bool) (a b : list A) : bool :=
@@ -74,6 +74,33 @@ Definition obj_eqb (cmp : list Z * list (mat Z) -> list Z * list (mat Z) -> bool
   (e : list nat * (list Z * list (mat Z))) : bool :=
   nat_list_eqb (cpo_shape o) (fst e) && cmp (cpo_w o, cpo_fs o) (snd e).
 
+(* ---- round 5: validating constructors (Model/TransformsApi.v) and the heap model of the copy flag (Model/TransformsHeap.v) *)
+Definition qclose5 (x y : Q) : bool := Qle_bool (Qabs (x - y)) (Qmake 1 100000).      (* the code's orthonormality test: max |P^T P - I| <= 1e-5 *)
+Definition nat_lists_eqb : list (list nat) -> list (list nat) -> bool := list_eqb nat_list_eqb.
+Definition mk_pf2 (is_class : bool) (w : option (list Z)) (fs Ps : list (mat Z)) : res (pf2_operand (F:=Z)) :=
+  if is_class then match pf2_new Zops Z.eqb w fs Ps with Ok o => Ok (Pf2Object o) | Err => Err end else Ok (Pf2Tuple w fs Ps).
+(* the heap the harness built: the arrays it holds, ONE factor list (possibly naming an array twice), and for an object operand
+   the CPTensor built from them *)
+Definition heap0 (arrs : list (mat Z)) (ls : list nat) (w : option nat) (is_class : bool) : heap (F:=Z) * href :=
+  if is_class then
+    (mk_heap arrs [ls] [mk_cell (cp_shape (map (fun l => nth l arrs []) ls)) (match w with Some l => l | None => 0 end) 0], RObject 0)
+  else (mk_heap arrs [ls] [], RTuple w 0).
+(* copy=True : the caller's arrays and list are untouched and the result shares no memory with them;
+   copy=False: no caller-held array is clobbered silently (it keeps its value or is owned by the result) *)
+Fixpoint no_clobberb (before after : list (mat Z)) (shared : list bool) : bool :=
+  match before, after, shared with
+  | [], [], [] => true
+  | b :: bs, a :: as_, s :: ss => (zmat_eqb b a || s) && no_clobberb bs as_ ss
+  | _, _, _ => false
+  end.
+Definition alias_okb (copy : bool) (before after : list (mat Z)) (shared : list bool) (list_same : bool) : bool :=
+  if copy then list_eqb zmat_eqb before after && negb (existsb (fun b => b) shared) && list_same && Nat.eqb (length shared) (length before)
+  else no_clobberb before after shared.
+Definition model_alias (copy : bool) (arrs : list (mat Z)) (ls : list nat) (h' : heap (F:=Z)) (o : nat) : bool :=
+  alias_okb copy arrs (firstn (length arrs) (h_arr h'))
+            (map (fun i => existsb (Nat.eqb i) (owned h' o)) (seq 0 (length arrs)))
+            (nat_list_eqb (lst h' 0) ls).
+
 Inductive body :=
 | ZDense (w : list Z) (fs : list (mat Z)) (expected : tensor Z)
 | ZFlip (w : list Z) (fs : list (mat Z)) (mode : nat) (expected : res (list Z * list (mat Z)))
@@ -101,6 +128,17 @@ Inductive body :=
 | ZModeDotZ (w : list Z) (fs : list (mat Z)) (x : operand (F:=Z)) (mode : Z) (keep_dim : bool) (expected : res (list Z * list (mat Z)))
 | ZTkDotZ (core : tensor Z) (fs : list (mat Z)) (x : operand (F:=Z)) (mode : Z) (keep_dim : bool) (expected : res (tensor Z * list (mat Z)))
 | ZFlipZ (w : list Z) (fs : list (mat Z)) (mode : Z) (expected : res (list Z * list (mat Z)))
+| ZPf2New (w : option (list Z)) (fs Ps : list (mat Z)) (expected : res (list (list nat) * nat))     (* Parafac2Tensor(...): shape, rank attributes *)
+| ZDecompApi (is_class : bool) (w : option (list Z)) (fs Ps : list (mat Z)) (Ls : list (option (mat Z)))
+             (expected : res (list (list nat) * list (mat Z)))                                       (* shape attribute, projections *)
+| QPf2NormApi (tape : list (list Q)) (w : option (list Q)) (fs Ps : list (mat Q)) (expected : res (list (list nat)))
+| QFromApi (Qm Rm : mat Q) (w : option (list Q)) (fs : list (mat Q)) (expected : res (list (list nat)))
+| ZFromPf2 (is_class ok : bool) (w : option (list Z)) (fs Ps : list (mat Z)) (expected : res (list (list nat)))
+| ZTkNew (core : tensor Z) (fs : list (mat Z)) (expected : res (list nat * list nat))               (* TuckerTensor(...): shape, rank *)
+| ZTkDotApi (core : tensor Z) (fs : list (mat Z)) (x : operand (F:=Z)) (mode : Z) (keep_dim : bool) (expected : res (list nat * list nat))
+| QTkNormApi (tape : list (list Q)) (core : tensor Q) (fs : list (mat Q)) (expected : res (list nat * list nat))
+| ZHeapDot (arrs : list (mat Z)) (ls : list nat) (w : option nat) (is_class copy : bool) (x : operand (F:=Z)) (mode : nat) (keep_dim : bool)
+           (expected : res (list nat * (list Z * list (mat Z)))) (after : list (mat Z)) (shared : list bool) (list_same : bool)
 | QAlign (norm_t : bool) (rw : list Q) (rfs : list (mat Q)) (tw : list Q) (tfs : list (mat Q)) (tA tB : list (list Q)) (perm : list nat).
 
 Definition agree_body (b : body) : bool :=
@@ -145,6 +183,33 @@ Definition agree_body (b : body) : bool :=
   | ZModeDotZ w fs x m kd e => res_eqb zcp_dense_eqb (cp_mode_dot_z Zops w fs x m kd) e
   | ZTkDotZ core fs x m kd e => res_eqb ztk_dense_eqb (tucker_mode_dot_z Zops core fs x m kd) e
   | ZFlipZ w fs m e => res_eqb zcp_eqb (cp_flip_sign_z Zops (col_sum Zops) w fs m) e
+  | ZPf2New w fs Ps e =>
+      res_eqb2 (fun o e' => nat_lists_eqb (pfo_shape o) (fst e') && Nat.eqb (pfo_rank o) (snd e')) (pf2_new Zops Z.eqb w fs Ps) e
+  | ZDecompApi cl w fs Ps Ls e =>
+      res_eqb2 (fun o e' => nat_lists_eqb (pfo_shape o) (fst e') && list_eqb zmat_eqb (pfo_ps o) (snd e'))
+               (rbind (mk_pf2 cl w fs Ps) (fun x => svd_decompress_api Zops Z.eqb x Ls)) e
+  | QPf2NormApi tape w fs Ps e =>
+      res_eqb2 (fun o e' => nat_lists_eqb (pfo_shape o) e') (parafac2_normalise_api Qops qclose5 tape (Pf2Tuple w fs Ps)) e
+  | QFromApi Qm Rm w fs e =>
+      res_eqb2 (fun o e' => nat_lists_eqb (pfo_shape o) e') (from_cp_api Qops qclose5 Qm Rm (FromCp (CpTuple w fs)) false) e
+  | ZFromPf2 cl ok w fs Ps e =>
+      res_eqb2 (fun o e' => nat_lists_eqb (pfo_shape o) e')
+               (rbind (mk_pf2 cl w fs Ps) (fun x => from_cp_api Zops Z.eqb [] [] (FromPf2 x) ok)) e
+  | ZTkNew core fs e =>
+      res_eqb2 (fun o e' => nat_list_eqb (tko_shape o) (fst e') && nat_list_eqb (tko_rank o) (snd e')) (tucker_new core fs) e
+  | ZTkDotApi core fs x m kd e =>
+      res_eqb2 (fun o e' => nat_list_eqb (tko_shape o) (fst e') && nat_list_eqb (tko_rank o) (snd e')) (tucker_mode_dot_api Zops core fs x m kd) e
+  | QTkNormApi tape core fs e =>
+      res_eqb2 (fun o e' => nat_list_eqb (tko_shape o) (fst e') && nat_list_eqb (tko_rank o) (snd e')) (tucker_normalize_api Qops tape core fs) e
+  | ZHeapDot arrs ls w cl cp x m kd e after shared same =>
+      let (h0, r) := heap0 arrs ls w cl in
+      match cp_mode_dot_h Zops h0 r cp x m kd, e with
+      | Ok (h', o), Ok e' =>
+          obj_eqb zcp_dense_eqb (read_obj h' o) e' &&
+          Bool.eqb (model_alias cp arrs ls h' o) (alias_okb cp arrs after shared same)
+      | Err, Err => true
+      | _, _ => false
+      end
   | QAlign nt rw rfs tw tfs tA tB perm =>
       let A := norm_inputs Qops rw rfs in
       let B := if nt then norm_inputs Qops tw tfs else tfs in
